@@ -62,10 +62,10 @@ Addrs == {s.addr : s \in Slots}
 
 ASSUME \A k \in Configs : k.interval >= 1 /\ k.timeout >= 1 /\ k.hth >= 1 /\ k.uth >= 1 /\ k.hth <= HCap /\ k.uth <= HCap
 
-Max(S) == CHOOSE x \in S : \A y \in S : y <= x
+MaxOf(S) == CHOOSE x \in S : \A y \in S : y <= x
 Min2(a, b) == IF a < b THEN a ELSE b
-MaxInterval == Max({k.interval : k \in Configs} \cup {1})
-MaxTimeout == Max({k.timeout : k \in Configs} \cup {1})
+MaxInterval == MaxOf({k.interval : k \in Configs} \cup {1})
+MaxTimeout == MaxOf({k.timeout : k \in Configs} \cup {1})
 SinceCap == MaxInterval + Grace + 1
 AgeCap == MaxTimeout + Grace + 1
 
